@@ -2,7 +2,11 @@
    src/CppUTest/TestPlugin.cpp) and of the plugin chain (TestPlugin::runAllPreTestAction / runAllPostTestAction,
    TestRegistry::installPlugin / removePluginByName / resetPlugins), driven by scripted tests whose control flow is
    that of Utest::run (setup; body only if setup completed; teardown always) inside
-   UtestShell::runOneTestInCurrentProcess (pre actions; test; post actions).  No proofs in this file. *)
+   UtestShell::runOneTestInCurrentProcess (pre actions; test; post actions), by whole runs of several tests
+   (TestRegistry::runAllTests: every test takes the chain as the registry holds it when the test starts) during which
+   test statements and plugin actions install / remove / enable / disable plugins, and by the command line runner
+   (CommandLineTestRunner::runAllTestsMain: its own SetPointerPlugin on top of whatever the registry holds, the run,
+   removal by name).  No proofs in this file. *)
 From Coq Require Import NArith Arith Bool List.
 From CppUVerif Require Import gen.Gen_Common.
 Import ListNotations.
@@ -73,12 +77,36 @@ Definition exec_test (m : mem) (tb : table) (t : test) : mem * table * bool (* f
 
 (* ---------------------------------------------------------------- the plugin chain *)
 Inductive kind := KPlain | KSetPtr.
-Record plugin := { p_id : nat; p_name : N; p_kind : kind; p_on : bool }.
-Definition chain := list plugin.                  (* firstPlugin_ first; the NullTestPlugin sentinel is the end of the list *)
-Definition with_on (p : plugin) (b : bool) : plugin :=
-  {| p_id := p_id p; p_name := p_name p; p_kind := p_kind p; p_on := b |}.
-Definition named (n : N) (p : plugin) : bool := N.eqb (p_name p) n.
 
+(* what a test statement or a plugin's pre / post action may do to the registry while a run is going on *)
+Inductive act :=
+| AInstall (name : N) (k : kind)       (* a new recording plugin object (id = number of plugins created so far), installPlugin *)
+| ARemove (name : N)                   (* TestRegistry::removePluginByName *)
+| AEnable (id : nat)
+| ADisable (id : nat)
+| AReset.                              (* TestRegistry::resetPlugins *)
+
+Inductive role :=
+| RRec                                 (* the harness's recording plugin: logs its pre and its post action *)
+| RActor (post : bool) (acts : list act) (* a recording plugin that also performs `acts` inside its pre (false) or post (true) action *)
+| RRunner.                             (* the SetPointerPlugin the command line runner installs itself: not a recording plugin *)
+
+Record plugin := { p_id : nat; p_name : N; p_kind : kind; p_on : bool; p_role : role }.
+Definition chain := list plugin.                  (* firstPlugin_ first; the NullTestPlugin sentinel is the end of the list *)
+Definition mkp (i : nat) (n : N) (k : kind) (r : role) : plugin :=
+  {| p_id := i; p_name := n; p_kind := k; p_on := true; p_role := r |}.
+Definition with_on (p : plugin) (b : bool) : plugin :=
+  {| p_id := p_id p; p_name := p_name p; p_kind := p_kind p; p_on := b; p_role := p_role p |}.
+Definition named (n : N) (p : plugin) : bool := N.eqb (p_name p) n.
+Definition is_sp (p : plugin) : bool := match p_kind p with KSetPtr => true | KPlain => false end.
+Definition logs (p : plugin) : bool := match p_role p with RRunner => false | _ => true end.
+Definition is_actor (p : plugin) : bool := match p_role p with RActor _ _ => true | _ => false end.
+Definition role_acts (p : plugin) : list act := match p_role p with RActor _ a => a | _ => [] end.
+Definition pre_acts (p : plugin) : list act := match p_role p with RActor false a => a | _ => [] end.
+Definition post_acts (p : plugin) : list act := match p_role p with RActor true a => a | _ => [] end.
+Definition sel_acts (post : bool) (p : plugin) : list act := if post then post_acts p else pre_acts p.
+
+(* ---- the chain's recursion for plugins that only record (no actions of their own) *)
 (* TestPlugin::runAllPreTestAction: own action (if enabled), then next_ *)
 Fixpoint pre_all (c : chain) : list nat :=
   match c with
@@ -132,49 +160,161 @@ Definition remove_by_name_old (n : N) (c : chain) : chain :=
   let c2 := match c1 with p :: r => if named n p then r else c1 | [] => [] end in
   unlink_next n c2.
 
-(* ---------------------------------------------------------------- sessions *)
-Record state := { s_mem : mem; s_tbl : table; s_chain : chain; s_next : nat }.
+Definition set_on (id : nat) (b : bool) (c : chain) : chain :=
+  map (fun p => if Nat.eqb (p_id p) id then with_on p b else p) c.
+Definition without (n : N) (c : chain) : chain := filter (fun p => negb (named n p)) c.
+Definition enabled_ids (c : chain) : list nat := map p_id (filter p_on c).
+Definition log_ids (c : chain) : list nat := map p_id (filter (fun p => p_on p && logs p) c).   (* what the recording plugins write *)
 
-Inductive op :=
-| OInstall (name : N) (k : kind)       (* a new plugin object (id = number of plugins created so far), installPlugin *)
-| OEnable (id : nat)
-| ODisable (id : nat)
-| ORemove (name : N)                   (* TestRegistry::removePluginByName *)
-| OReset                               (* TestRegistry::resetPlugins *)
-| OTest (t : test).                    (* one test run through the registry *)
+(* ---------------------------------------------------------------- the registry *)
+(* chain, number of plugin objects created so far, and the (id, name) of every object ever created (the harness's
+   book-keeping of which plugins an action names, used only to tell which log entries the property speaks about) *)
+Definition names := list (nat * N).
+Record reg := { r_chain : chain; r_next : nat; r_names : names }.
+
+(* `rm` is the removal by name: the code's loops (remove_by_name) in the model, the textbook filter (without) in the oracle *)
+Definition reg_install (r : reg) (p : plugin) : reg :=
+  {| r_chain := p :: r_chain r; r_next := S (r_next r); r_names := (p_id p, p_name p) :: r_names r |}.
+Definition reg_chain (r : reg) (c : chain) : reg := {| r_chain := c; r_next := r_next r; r_names := r_names r |}.
+Definition reg_act (rm : N -> chain -> chain) (r : reg) (a : act) : reg :=
+  match a with
+  | AInstall n k => reg_install r (mkp (r_next r) n k RRec)
+  | ARemove n => reg_chain r (rm n (r_chain r))
+  | AEnable i => reg_chain r (set_on i true (r_chain r))
+  | ADisable i => reg_chain r (set_on i false (r_chain r))
+  | AReset => reg_chain r []
+  end.
+
+(* the plugin objects an action names: their log entries in the test in which the action happens are outside what the
+   property fixes (was the plugin "installed" / "enabled" for that test or not?) and are left out of the observation *)
+Definition ids_named (nm : names) (n : N) : list nat := map fst (filter (fun e => N.eqb (snd e) n) nm).
+Definition touched_by (nm : names) (nx : nat) (a : act) : list nat :=
+  match a with
+  | AInstall _ _ => [nx]
+  | ARemove n => ids_named nm n
+  | AEnable i | ADisable i => [i]
+  | AReset => map fst nm
+  end.
+Definition unnamed (T : list nat) (i : nat) : bool := negb (existsb (Nat.eqb i) T).
+Definition installs_sp (a : act) : bool := match a with AInstall _ KSetPtr => true | _ => false end.
+
+(* ---------------------------------------------------------------- sessions *)
+Record state := { s_mem : mem; s_tbl : table; s_reg : reg; s_T : list nat (* ids named by the actions of the current test *) }.
+Definition s_chain (st : state) : chain := r_chain (s_reg st).
+Definition s_next (st : state) : nat := r_next (s_reg st).
+
+(* one action; the SetPointerPlugin constructor resets pointerTableIndex *)
+Definition do_act (st : state) (a : act) : state :=
+  {| s_mem := s_mem st; s_tbl := if installs_sp a then [] else s_tbl st;
+     s_reg := reg_act remove_by_name (s_reg st) a;
+     s_T := touched_by (r_names (s_reg st)) (r_next (s_reg st)) a ++ s_T st |}.
+Definition do_acts (st : state) (l : list act) : state := fold_left do_act l st.
+
+(* statements of a test of a run: the pointer statements, or an action on the registry *)
+Inductive xstmt := XS (s : stmt) | XA (a : act).
+Record xtest := { x_setup : list xstmt; x_body : list xstmt; x_teardown : list xstmt }.
+Definition set_mt (st : state) (m : mem) (tb : table) : state := {| s_mem := m; s_tbl := tb; s_reg := s_reg st; s_T := s_T st |}.
+Fixpoint xexec (st : state) (ss : list xstmt) : state * bool :=
+  match ss with
+  | [] => (st, true)
+  | XS s :: r => match exec_stmt (s_mem st) (s_tbl st) s with
+                 | (m1, tb1, true) => xexec (set_mt st m1 tb1) r
+                 | (m1, tb1, false) => (set_mt st m1 tb1, false)
+                 end
+  | XA a :: r => xexec (do_act st a) r
+  end.
+
+(* the walk over the chain as it stood when the test started (UtestShell::runOneTest is handed the head once, the pre
+   recursion goes down the chain, the post recursion comes back up): a plugin takes its turn if it is still installed
+   and enabled when the turn comes; the pointer plugin's turn in the post walk restores; an acting plugin's turn
+   performs its actions *)
+Definition find_id (i : nat) (c : chain) : option plugin := find (fun p => Nat.eqb (p_id p) i) c.
+Definition sp_restore (st : state) : state := set_mt st (restore (s_tbl st) (s_mem st)) [].
+Definition turn (post : bool) (x : plugin) (st : state) : state :=
+  do_acts (if post && is_sp x then sp_restore st else st) (sel_acts post x).
+Fixpoint walk (post : bool) (sn : chain) (st : state) (lg : list nat) : state * list nat :=
+  match sn with
+  | [] => (st, lg)
+  | x :: r => match find_id (p_id x) (s_chain st) with
+              | Some q => if p_on q then walk post r (turn post x st) (if logs x then lg ++ [p_id x] else lg)
+                          else walk post r st lg
+              | None => walk post r st lg
+              end
+  end.
 
 Inductive item :=
 | ITest (failed : bool) (pre post : list nat) (pool : mem)
 | IChain (ids : list nat).
 
-Definition set_on (id : nat) (b : bool) (c : chain) : chain :=
-  map (fun p => if Nat.eqb (p_id p) id then with_on p b else p) c.
-
-Definition run_test (m : mem) (tb : table) (c : chain) (t : test) : mem * table * item :=
-  let pre := pre_all c in
-  match exec_test m tb t with
-  | (m1, tb1, failed) =>
-    match post_all c m1 tb1 with
-    | (m2, tb2, post) => (m2, tb2, ITest failed pre post m2)
+(* Utest::run *)
+Definition xexec_test (st : state) (t : xtest) : state * bool (* failed *) :=
+  match xexec st (x_setup t) with
+  | (st2, ok1) =>
+    match (if ok1 then xexec st2 (x_body t) else (st2, true)) with
+    | (st3, ok2) =>
+      match xexec st3 (x_teardown t) with
+      | (st4, ok3) => (st4, negb (ok1 && ok2 && ok3))
+      end
     end
   end.
 
+(* UtestShell::runOneTestInCurrentProcess *)
+Definition run_xtest (st0 : state) (t : xtest) : state * item :=
+  let st := {| s_mem := s_mem st0; s_tbl := s_tbl st0; s_reg := s_reg st0; s_T := [] |} in
+  let sn := s_chain st in
+  match walk false sn st [] with
+  | (st1, pre) =>
+    match xexec_test st1 t with
+    | (st4, failed) =>
+      match walk true (rev sn) st4 [] with
+      | (st5, post) =>
+        (st5, ITest failed (filter (unnamed (s_T st5)) pre) (filter (unnamed (s_T st5)) post) (s_mem st5))
+      end
+    end
+  end.
+
+(* TestRegistry::runAllTests: `test->runOneTest(firstPlugin_, result)` reads the head of the chain anew for every test *)
+Fixpoint run_tests (st : state) (ts : list xtest) : state * list item :=
+  match ts with
+  | [] => (st, [])
+  | t :: r => match run_xtest st t with
+              | (st1, it) => match run_tests st1 r with (st2, its) => (st2, it :: its) end
+              end
+  end.
+
+(* the name CommandLineTestRunner gives its pointer plugin (DEF_PLUGIN_SET_POINTER; the harness maps this number to it) *)
+Definition runner_name : N := 160%N.
+Definition runner_plugin (i : nat) : plugin := mkp i runner_name KSetPtr RRunner.
+Definition is_runner (p : plugin) : bool := match p_role p with RRunner => true | _ => false end.
+
+Inductive op :=
+| OInstall (name : N) (k : kind)       (* a new plugin object (id = number of plugins created so far), installPlugin *)
+| OActor (name : N) (post : bool) (acts : list act)   (* the same for a plugin with actions of its own *)
+| OEnable (id : nat)
+| ODisable (id : nat)
+| ORemove (name : N)                   (* TestRegistry::removePluginByName *)
+| OReset                               (* TestRegistry::resetPlugins *)
+| OTest (t : xtest)                    (* one test run through the registry *)
+| ORun (ts : list xtest)               (* one TestRegistry::runAllTests over several tests, then the chain is read *)
+| ORunner (rep : nat) (ts : list xtest). (* CommandLineTestRunner::runAllTestsMain, the tests repeated rep times (-r), then the chain is read *)
+
+Definition install (st : state) (p : plugin) : state :=
+  {| s_mem := s_mem st; s_tbl := if is_sp p then [] else s_tbl st; s_reg := reg_install (s_reg st) p; s_T := s_T st |}.
+Definition reps (rep : nat) (ts : list xtest) : list xtest := concat (repeat ts rep).
+
 Definition step (st : state) (o : op) : state * list item :=
   match o with
-  | OInstall n k =>
-      (* the SetPointerPlugin constructor resets pointerTableIndex *)
-      ({| s_mem := s_mem st; s_tbl := match k with KSetPtr => [] | KPlain => s_tbl st end;
-          s_chain := {| p_id := s_next st; p_name := n; p_kind := k; p_on := true |} :: s_chain st;
-          s_next := S (s_next st) |}, [])
-  | OEnable id => ({| s_mem := s_mem st; s_tbl := s_tbl st; s_chain := set_on id true (s_chain st); s_next := s_next st |}, [])
-  | ODisable id => ({| s_mem := s_mem st; s_tbl := s_tbl st; s_chain := set_on id false (s_chain st); s_next := s_next st |}, [])
-  | ORemove n =>
-      let c := remove_by_name n (s_chain st) in
-      ({| s_mem := s_mem st; s_tbl := s_tbl st; s_chain := c; s_next := s_next st |}, [IChain (map p_id c)])
-  | OReset => ({| s_mem := s_mem st; s_tbl := s_tbl st; s_chain := []; s_next := s_next st |}, [IChain []])
-  | OTest t =>
-      match run_test (s_mem st) (s_tbl st) (s_chain st) t with
-      | (m, tb, it) => ({| s_mem := m; s_tbl := tb; s_chain := s_chain st; s_next := s_next st |}, [it])
+  | OInstall n k => (do_act st (AInstall n k), [])
+  | OActor n post acts => (install st (mkp (s_next st) n KPlain (RActor post acts)), [])
+  | OEnable id => (do_act st (AEnable id), [])
+  | ODisable id => (do_act st (ADisable id), [])
+  | ORemove n => let st1 := do_act st (ARemove n) in (st1, [IChain (map p_id (s_chain st1))])
+  | OReset => (do_act st AReset, [IChain []])
+  | OTest t => match run_xtest st t with (st1, it) => (st1, [it]) end
+  | ORun ts => match run_tests st ts with (st1, its) => (st1, its ++ [IChain (map p_id (s_chain st1))]) end
+  | ORunner rep ts =>
+      match run_tests (install st (runner_plugin (s_next st))) (reps rep ts) with
+      | (st1, its) => let st2 := do_act st1 (ARemove runner_name) in (st2, its ++ [IChain (map p_id (s_chain st2))])
       end
   end.
 
@@ -188,8 +328,20 @@ Fixpoint exec_ops (st : state) (ops : list op) : state :=
   | [] => st
   | o :: r => exec_ops (fst (step st o)) r
   end.
-Definition init_state : state := {| s_mem := init_mem; s_tbl := []; s_chain := []; s_next := 0 |}.
+Definition init_reg : reg := {| r_chain := []; r_next := 0; r_names := [] |}.
+Definition init_state : state := {| s_mem := init_mem; s_tbl := []; s_reg := init_reg; s_T := [] |}.
 Definition run (s : list op) : list item := run_from init_state s.
+
+(* ---- a test without actions on a chain of plugins that only record: the plain recursion *)
+Definition run_test (m : mem) (tb : table) (c : chain) (t : test) : mem * table * item :=
+  let pre := pre_all c in
+  match exec_test m tb t with
+  | (m1, tb1, failed) =>
+    match post_all c m1 tb1 with
+    | (m2, tb2, post) => (m2, tb2, ITest failed pre post m2)
+    end
+  end.
+Definition lift (t : test) : xtest := {| x_setup := map XS (t_setup t); x_body := map XS (t_body t); x_teardown := map XS (t_teardown t) |}.
 
 (* ---------------------------------------------------------------- spec: what the property demands (model-free) *)
 (* "the value it had before the test's first redirection": remember, per location, the value at its first redirection
@@ -242,42 +394,108 @@ Fixpoint mem_eqb (a b : mem) : bool :=
   | _, _ => false
   end.
 
-Definition enabled_ids (c : chain) : list nat := map p_id (filter p_on c).
-Definition without (n : N) (c : chain) : chain := filter (fun p => negb (named n p)) c.
+(* the pointer statements of a test (actions on the registry neither fail nor touch a pointer) *)
+Fixpoint strip_stmts (ss : list xstmt) : list stmt :=
+  match ss with
+  | [] => []
+  | XS s :: r => s :: strip_stmts r
+  | XA _ :: r => strip_stmts r
+  end.
+Definition strip (t : xtest) : test :=
+  {| t_setup := strip_stmts (x_setup t); t_body := strip_stmts (x_body t); t_teardown := strip_stmts (x_teardown t) |}.
 
-(* the expected chain is kept as the textbook one: newest first, removal = all plugins of that name gone *)
-Fixpoint spec_from (c : chain) (nx : nat) (pool : mem) (ops : list op) (obs : list item) : bool :=
-  match ops with
-  | [] => match obs with [] => true | _ => false end
-  | OInstall n k :: r => spec_from ({| p_id := nx; p_name := n; p_kind := k; p_on := true |} :: c) (S nx) pool r obs
-  | OEnable id :: r => spec_from (set_on id true c) nx pool r obs
-  | ODisable id :: r => spec_from (set_on id false c) nx pool r obs
-  | ORemove n :: r =>
-      match obs with
-      | IChain ids :: obs' => nat_list_eqb ids (map p_id (without n c)) && spec_from (without n c) nx pool r obs'
-      | _ => false
+(* the actions a test's statements perform: those in front of the statement that leaves the phase (n = redirections done) *)
+Fixpoint ref_xacts (n : nat) (ss : list xstmt) : list act * nat * bool :=
+  match ss with
+  | [] => ([], n, true)
+  | XA a :: r => match ref_xacts n r with (l, n1, ok) => (a :: l, n1, ok) end
+  | XS (SSet _ _) :: r => if max_set <=? n then ([], n, false) else ref_xacts (S n) r
+  | XS (SWrite _ _) :: r => ref_xacts n r
+  | XS SAbort :: r => ([], n, false)
+  end.
+Definition ref_test_acts (t : xtest) : list act :=
+  match ref_xacts 0 (x_setup t) with
+  | (a1, n1, ok1) =>
+    match (if ok1 then ref_xacts n1 (x_body t) else ([], n1, true)) with
+    | (a2, n2, _) =>
+      match ref_xacts n2 (x_teardown t) with
+      | (a3, _, _) => a1 ++ a2 ++ a3
       end
-  | OReset :: r =>
-      match obs with
-      | IChain [] :: obs' => spec_from [] nx pool r obs'
-      | _ => false
-      end
-  | OTest t :: r =>
+    end
+  end.
+(* all actions of a test on the chain c it starts with: the enabled acting plugins' pre actions head first, the
+   statements', the enabled acting plugins' post actions tail first *)
+Definition armed_acts (post : bool) (c : chain) : list act := flat_map (fun p => if p_on p then sel_acts post p else []) c.
+Definition test_acts (c : chain) (t : xtest) : list act :=
+  armed_acts false c ++ ref_test_acts t ++ armed_acts true (rev c).
+
+(* the textbook registry: newest first, removal = all plugins of that name gone; together with the ids the actions name *)
+Definition tb_step (rT : reg * list nat) (a : act) : reg * list nat :=
+  (reg_act without (fst rT) a, touched_by (r_names (fst rT)) (r_next (fst rT)) a ++ snd rT).
+Definition tb_acts (rT : reg * list nat) (l : list act) : reg * list nat := fold_left tb_step l rT.
+
+(* the tests of one run against their observations: every test is seen (pre head first, post in the exact reverse) by
+   the enabled plugins of the chain as the actions up to that test have left it; every redirected pointer is back *)
+Fixpoint spec_tests (r : reg) (pool : mem) (ts : list xtest) (obs : list item) : option (reg * mem * list item) :=
+  match ts with
+  | [] => Some (r, pool, obs)
+  | t :: ts' =>
       match obs with
       | ITest failed pre post pool' :: obs' =>
-          Bool.eqb failed (snd (ref_test pool t)) &&
-          nat_list_eqb pre (enabled_ids c) &&            (* installation-reversed, disabled absent *)
-          nat_list_eqb post (rev (enabled_ids c)) &&     (* exact reverse *)
-          mem_eqb pool' (fst (ref_test pool t)) &&
-          spec_from c nx pool' r obs'
+          let rT := tb_acts (r, []) (test_acts (r_chain r) t) in
+          if Bool.eqb failed (snd (ref_test pool (strip t))) &&
+             nat_list_eqb pre (filter (unnamed (snd rT)) (log_ids (r_chain r))) &&           (* installation-reversed, disabled absent *)
+             nat_list_eqb post (filter (unnamed (snd rT)) (rev (log_ids (r_chain r)))) &&    (* exact reverse *)
+             mem_eqb pool' (fst (ref_test pool (strip t)))
+          then spec_tests (fst rT) pool' ts' obs' else None
+      | _ => None
+      end
+  end.
+
+Fixpoint spec_from (r : reg) (pool : mem) (ops : list op) (obs : list item) : bool :=
+  match ops with
+  | [] => match obs with [] => true | _ => false end
+  | OInstall n k :: rest => spec_from (reg_act without r (AInstall n k)) pool rest obs
+  | OActor n post acts :: rest => spec_from (reg_install r (mkp (r_next r) n KPlain (RActor post acts))) pool rest obs
+  | OEnable id :: rest => spec_from (reg_act without r (AEnable id)) pool rest obs
+  | ODisable id :: rest => spec_from (reg_act without r (ADisable id)) pool rest obs
+  | ORemove n :: rest =>
+      match obs with
+      | IChain ids :: obs' => nat_list_eqb ids (map p_id (without n (r_chain r))) && spec_from (reg_act without r (ARemove n)) pool rest obs'
+      | _ => false
+      end
+  | OReset :: rest =>
+      match obs with
+      | IChain [] :: obs' => spec_from (reg_act without r AReset) pool rest obs'
+      | _ => false
+      end
+  | OTest t :: rest =>
+      match spec_tests r pool [t] obs with
+      | Some (r', pool', obs') => spec_from r' pool' rest obs'
+      | None => false
+      end
+  | ORun ts :: rest =>
+      match spec_tests r pool ts obs with
+      | Some (r', pool', IChain ids :: obs') => nat_list_eqb ids (map p_id (r_chain r')) && spec_from r' pool' rest obs'
+      | _ => false
+      end
+  | ORunner rep ts :: rest =>
+      (* whatever the registry holds: the runner's pointer plugin is on top for the run; afterwards the plugins of other
+         names are all still there, in order *)
+      match spec_tests (reg_install r (runner_plugin (r_next r))) pool (reps rep ts) obs with
+      | Some (r', pool', IChain ids :: obs') =>
+          nat_list_eqb ids (map p_id (without runner_name (r_chain r'))) &&
+          spec_from (reg_act without r' (ARemove runner_name)) pool' rest obs'
       | _ => false
       end
   end.
-Definition spec (s : list op) (o : list item) : bool := spec_from [] 0 init_mem s o.
+Definition spec (s : list op) (o : list item) : bool := spec_from init_reg init_mem s o.
 
 (* ---------------------------------------------------------------- valid scenarios *)
-(* a test that uses UT_PTR_SET runs with an enabled SetPointerPlugin in the chain (otherwise nothing promises a restore);
-   locations are pool indices *)
+(* locations are pool indices.  A test that uses UT_PTR_SET runs with an enabled SetPointerPlugin in the chain that no
+   action of the test names, and no SetPointerPlugin is constructed while it runs (otherwise nothing promises a restore).
+   An acting plugin is named only by itself and only in the last of its actions (so that it is beyond doubt which
+   actions a test performs). *)
 Definition sp_active (c : chain) : bool :=
   existsb (fun p => p_on p && match p_kind p with KSetPtr => true | KPlain => false end) c.
 Definition stmt_ok (s : stmt) : bool :=
@@ -286,14 +504,60 @@ Definition is_set (s : stmt) : bool := match s with SSet _ _ => true | _ => fals
 Definition all_stmts (t : test) : list stmt := t_setup t ++ t_body t ++ t_teardown t.
 Definition test_ok (c : chain) (t : test) : bool :=
   forallb stmt_ok (all_stmts t) && (sp_active c || negb (existsb is_set (all_stmts t))).
-Fixpoint valid_from (c : chain) (nx : nat) (ops : list op) : bool :=
+
+Definition keeps (a : act) (x : plugin) : bool :=          (* the action does not name plugin x *)
+  match a with
+  | AInstall _ _ => true
+  | ARemove n => negb (named n x)
+  | AEnable i | ADisable i => negb (Nat.eqb i (p_id x))
+  | AReset => false
+  end.
+Fixpoint xacts (ss : list xstmt) : list act :=
+  match ss with
+  | [] => []
+  | XS _ :: r => xacts r
+  | XA a :: r => a :: xacts r
+  end.
+Definition stmt_acts (t : xtest) : list act := xacts (x_setup t) ++ xacts (x_body t) ++ xacts (x_teardown t).
+Definition all_acts (c : chain) (t : xtest) : list act := stmt_acts t ++ flat_map role_acts c.
+Definition left_alone (c : chain) (t : xtest) (x : plugin) : bool :=
+  forallb (fun a => keeps a x) (stmt_acts t) &&
+  forallb (fun y => Nat.eqb (p_id y) (p_id x) || forallb (fun a => keeps a x) (role_acts y)) c &&
+  forallb (fun a => keeps a x) (removelast (role_acts x)).
+Definition sp_stable (c : chain) (t : xtest) : bool :=
+  existsb (fun s => p_on s && is_sp s && forallb (fun a => keeps a s) (all_acts c t)) c &&
+  negb (existsb installs_sp (all_acts c t)).
+Definition xtest_ok (c : chain) (t : xtest) : bool :=
+  forallb stmt_ok (all_stmts (strip t)) &&
+  forallb (fun x => negb (is_actor x) || left_alone c t x) c &&
+  (sp_stable c t || negb (existsb is_set (all_stmts (strip t)))).
+
+Fixpoint valid_tests (r : reg) (ts : list xtest) : option reg :=
+  match ts with
+  | [] => Some r
+  | t :: ts' => if xtest_ok (r_chain r) t then valid_tests (fst (tb_acts (r, []) (test_acts (r_chain r) t))) ts' else None
+  end.
+(* after the runner a plugin of the user that merely shares the runner's plugin name may or may not be left installed
+   (the property does not say): such a session goes on with resetPlugins or ends *)
+Definition runner_tail_ok (c : chain) (rest : list op) : bool :=
+  negb (existsb (fun p => named runner_name p && negb (is_runner p)) c) ||
+  match rest with [] => true | OReset :: _ => true | _ => false end.
+Fixpoint valid_from (r : reg) (ops : list op) : bool :=
   match ops with
   | [] => true
-  | OInstall n k :: r => valid_from ({| p_id := nx; p_name := n; p_kind := k; p_on := true |} :: c) (S nx) r
-  | OEnable id :: r => valid_from (set_on id true c) nx r
-  | ODisable id :: r => valid_from (set_on id false c) nx r
-  | ORemove n :: r => valid_from (without n c) nx r
-  | OReset :: r => valid_from [] nx r
-  | OTest t :: r => test_ok c t && valid_from c nx r
+  | OInstall n k :: rest => valid_from (reg_act without r (AInstall n k)) rest
+  | OActor n post acts :: rest => valid_from (reg_install r (mkp (r_next r) n KPlain (RActor post acts))) rest
+  | OEnable id :: rest => valid_from (reg_act without r (AEnable id)) rest
+  | ODisable id :: rest => valid_from (reg_act without r (ADisable id)) rest
+  | ORemove n :: rest => valid_from (reg_act without r (ARemove n)) rest
+  | OReset :: rest => valid_from (reg_act without r AReset) rest
+  | OTest t :: rest => match valid_tests r [t] with Some r' => valid_from r' rest | None => false end
+  | ORun ts :: rest => match valid_tests r ts with Some r' => valid_from r' rest | None => false end
+  | ORunner rep ts :: rest =>
+      (0 <? rep) &&
+      match valid_tests (reg_install r (runner_plugin (r_next r))) (reps rep ts) with
+      | Some r' => runner_tail_ok (r_chain r') rest && valid_from (reg_act without r' (ARemove runner_name)) rest
+      | None => false
+      end
   end.
-Definition valid (s : list op) : bool := valid_from [] 0 s.
+Definition valid (s : list op) : bool := valid_from init_reg s.
